@@ -186,9 +186,12 @@ def run_history(args):
         try:
             for ci, (vars_, n, rl, sp) in enumerate(calls):
                 its = [vs[f'c{ci}i{k}'] for k in range(n)]
+                its_arg, vars_arg = list(its), list(vars_)
                 try:
-                    out = reading.read_data(param, it=list(its), vars=list(vars_), rl=rl, split_per_it=sp,
+                    out = reading.read_data(param, it=its_arg, vars=vars_arg, rl=rl, split_per_it=sp,
                                             verbose=False, veryverbose=False)
+                    if vars_arg != list(vars_) or len(its_arg) != len(its) or any(a is not b for a, b in zip(its_arg, its)):
+                        probs.append(f"call {ci}: read_data modified the caller's vars / it list (vars now {vars_arg})")
                 except Inconclusive:
                     raise
                 except Exception as e:  # noqa
@@ -230,8 +233,11 @@ def replay_concrete(tier, idx, model):
     try:
         for ci, (vars_, n, rl, sp) in enumerate(calls):
             its = [int(model.get(f'c{ci}i{k}', 0)) for k in range(n)]
+            vars_arg = list(vars_)
             try:
-                out = reading.read_data(param, it=list(its), vars=list(vars_), rl=rl, split_per_it=sp, verbose=False)
+                out = reading.read_data(param, it=list(its), vars=vars_arg, rl=rl, split_per_it=sp, verbose=False)
+                if vars_arg != list(vars_):
+                    probs.append(f"call {ci}: read_data modified the caller's vars / it list (vars now {vars_arg})")
             except Exception as e:  # noqa
                 probs.append(f'call {ci} raises {type(e).__name__}: {e}'[:160])
                 break
